@@ -185,7 +185,7 @@ func stressDag(r *hx.Run, rng *hx.Rng, sub uint64, g, iters, nEnt int) {
 	}
 	if waitOrStall(r, &wg, "DAGMutex") {
 		w := &dagWorld{d: d, nEnt: nEnt}
-		if o := w.obs(); strings.ContainsAny(strings.TrimSpace(o), "123456789") {
+		if o := w.obs(); strings.ContainsAny(strings.TrimSpace(o), "123456789") || w.mutexes().Size() != 0 || w.counts().Size() != 0 {
 			r.Fail("registry", "after the stress run the DAGMutex still has registered entities: "+o, sig("api", "DAGMutex", "oracle", "registry-not-empty"))
 		}
 	}
